@@ -1,0 +1,109 @@
+//go:build verif
+
+package smtp
+
+import (
+	"net/textproto"
+
+	"github.com/inbucket/inbucket/v3/pkg/extension/event"
+	"github.com/inbucket/inbucket/v3/pkg/message"
+	"github.com/inbucket/inbucket/v3/pkg/policy"
+)
+
+var _ textproto.Conn
+var _ = event.ActionDefer
+var _ message.Manager
+var _ policy.Recipient
+
+// Ghost output of the session's text connection (owned by the assumed contract of
+// (*textproto.Conn).PrintfLine): number of lines written and the last line.
+func ghost_nlines(w *textproto.Writer) int      { panic("ghost") }
+func ghost_lastline(w *textproto.Writer) string { panic("ghost") }
+
+// ---------------------------------------------------------------------------------------------
+// Session invariant (C01, C03).
+
+// spec_valid: the structural facts NewServer / NewSession establish.
+//@ pred spec_valid(s *Session) bool = s.Server != nil && s.conn != nil && s.text != nil && s.addrPolicy != nil &&
+//@     s.addrPolicy.Config != nil && s.extHost != nil && s.extHost.Events != nil && s.manager != nil
+
+//@ pred spec_rcptsOK(s *Session) bool = forall k int :: { s.recipients[k] } 0 <= k && k < len(s.recipients) ==>
+//@     policy.Spec_recipientOf(s.recipients[k], s.addrPolicy)
+
+// I_smtp: the envelope is empty outside a transaction, a transaction has a sender, DATA has at
+// least one recipient, a greeting was accepted in every state but GREET/QUIT, the recipient limit holds.
+//@ pred I_smtp(s *Session) bool = spec_valid(s) && GREET <= s.state && s.state <= QUIT &&
+//@     ((s.state == GREET || s.state == READY || s.state == LOGIN || s.state == PASSWORD) ==> len(s.recipients) == 0) &&
+//@     ((s.state == MAIL || s.state == DATA) ==> policy.Spec_originOf(s.from, s.addrPolicy)) &&
+//@     (s.state == DATA ==> len(s.recipients) > 0) &&
+//@     ((s.state != GREET && s.state != QUIT) ==> s.remoteDomain != "") &&
+//@     (len(s.recipients) == 0 || len(s.recipients) <= s.config.MaxRecipients) &&
+//@     spec_rcptsOK(s)
+
+//@ func (*Session).enterState
+//@   inline
+//@ func (*Session).reset
+//@   inline
+//@ func (*Session).nextDeadline
+//@   inline
+//@ func (*Session).ooSeq
+//@   inline
+//@ func (*Session).readDataBlock
+//@   inline
+//@ func (*Session).readLine
+//@   inline
+//@ func (*Session).greet
+//@   inline
+
+// send: exactly the given line is written, or the send error is set (and stays set).
+//@ func (*Session).send
+//@   requires s.conn != nil && s.text != nil && s.Server != nil
+//@   modifies s.sendError, ghost_nlines(&s.text.Writer), ghost_lastline(&s.text.Writer)
+//@   ensures (ghost_nlines(&s.text.Writer) == old(ghost_nlines(&s.text.Writer)) + 1 && ghost_lastline(&s.text.Writer) == msg && s.sendError == old(s.sendError)) || s.sendError != nil
+//@   ensures old(s.sendError) != nil ==> s.sendError != nil
+//@   serves C03
+
+//@ func parseHelloArgument
+//@   ensures ret1 == nil ==> ret0 != ""
+//@   serves C03
+
+//@ func (*Session).parseCmd
+//@   requires s.Server != nil
+//@   serves C03
+
+// extSession builds a fresh description of the envelope; it changes nothing.
+//@ func (*Session).extSession
+//@   requires s.Server != nil && forall k int :: { s.recipients[k] } 0 <= k && k < len(s.recipients) ==> s.recipients[k] != nil
+//@   ensures ret != nil && vcFresh(ret)
+//@   loop 1: invariant 0 <= ridx && ridx <= len(s.recipients) && vcFresh(to)
+//@   loop 1: decreases len(s.recipients) - ridx
+//@   serves C03
+
+//@ func (*Session).parseArgs
+//@   requires s.Server != nil
+//@   ensures ok ==> args != nil
+//@   loop 1: invariant 0 <= ridx && ridx <= len(pm) && args != nil && vcFresh(args)
+//@   loop 1: decreases len(pm) - ridx
+//@   serves C03
+
+// ---------------------------------------------------------------------------------------------
+// Handlers: each preserves the session invariant; the gates are the postconditions.
+
+//@ func (*Session).greetHandler
+//@   requires I_smtp(s) && s.state == GREET
+//@   modifies s.state, s.remoteDomain, s.sendError, ghost_nlines(&s.text.Writer), ghost_lastline(&s.text.Writer)
+//@   ensures I_smtp(s) && (s.state == GREET || s.state == READY)
+//@   ensures s.state == READY ==> (cmd == "HELO" || cmd == "EHLO")
+//@   serves C03
+
+//@ func (*Session).loginHandler
+//@   requires I_smtp(s) && s.state == LOGIN
+//@   modifies s.state, s.sendError, ghost_nlines(&s.text.Writer), ghost_lastline(&s.text.Writer)
+//@   ensures I_smtp(s) && s.state == PASSWORD
+//@   serves C03
+
+//@ func (*Session).passwordHandler
+//@   requires I_smtp(s) && s.state == PASSWORD
+//@   modifies s.state, s.sendError, ghost_nlines(&s.text.Writer), ghost_lastline(&s.text.Writer)
+//@   ensures I_smtp(s) && s.state == READY
+//@   serves C03
